@@ -387,12 +387,12 @@ class P(Property):
                     if j < len(req) and 0 < req[j] < dec_ins and req[j] // (2 * me) < dec_ins // (2 * me):
                         ahead += 1
         h['decodes_ahead_across_wrap_boundary'] = ahead
-        h['byte_deliveries_ending_inside_an_instruction'] = cut
+        h['byte_deliveries_completing_no_insertion'] = cut
         viol = []
         if ctx['rows'] and ahead == 0:
             viol.append(('coverage', {'message': 'no qs history decodes a section with the decoder ahead of its RIC across a 2*max_entries boundary'}))
         if ctx['rows'] and cut == 0:
-            viol.append(('coverage', {'message': 'no qs history cuts an encoder-stream instruction with a byte-granular delivery'}))
+            viol.append(('coverage', {'message': 'no qs history has a byte-granular delivery that ends before an insertion is complete'}))
         try:
             os.makedirs(os.path.join(os.path.dirname(os.path.dirname(os.path.dirname(os.path.abspath(__file__)))), 'evidence'), exist_ok=True)
             with open(os.path.join(os.path.dirname(os.path.dirname(os.path.dirname(os.path.abspath(__file__)))), 'notes', 'C20_histograms.json'), 'w') as f:
